@@ -299,13 +299,50 @@ def cmp_sides(e):
     return []
 
 
-def if_branches(ifnode):
+def _cannot_fall_through(block):
+    return bool(block) and isinstance(block[-1], (ast.Return, ast.Raise,
+                                                  ast.Continue, ast.Break))
+
+
+def if_branches(ifnode, following=()):
     """[(atoms implied on entering the block, block)] for the two blocks of
     an `if`: rules that look for "the block executed when <atom> is
     true/false" use this, so that `if c: A else: B` and `if not c: B else: A`
-    are the same to them."""
-    return [(implied_atoms(ifnode.test, 'T'), ifnode.body),
-            (implied_atoms(ifnode.test, 'F'), ifnode.orelse)]
+    are the same to them.  `following` = the statements after the `if` in
+    its block: when one arm cannot fall through (guard clause), they are
+    what the other arm continues with."""
+    body, orelse = list(ifnode.body), list(ifnode.orelse)
+    if following:
+        if _cannot_fall_through(ifnode.body):
+            orelse = orelse + list(following)
+        elif _cannot_fall_through(ifnode.orelse):
+            body = body + list(following)
+    return [(implied_atoms(ifnode.test, 'T'), body),
+            (implied_atoms(ifnode.test, 'F'), orelse)]
+
+
+def ifs_with_following(fnode):
+    """(if statement, statements that follow it in its block) for every
+    `if` of a function (nested functions excluded)."""
+    out = []
+
+    def walk(block):
+        for i, s_ in enumerate(block):
+            if isinstance(s_, (ast.FunctionDef, ast.AsyncFunctionDef,
+                               ast.ClassDef)):
+                continue
+            if isinstance(s_, ast.If):
+                out.append((s_, block[i + 1:]))
+            for f_ in ('body', 'orelse', 'finalbody'):
+                b_ = getattr(s_, f_, None)
+                if isinstance(b_, list) and b_ and isinstance(b_[0],
+                                                              ast.stmt):
+                    walk(b_)
+            if isinstance(s_, ast.Try):
+                for h in s_.handlers:
+                    walk(h.body)
+    walk(fnode.body)
+    return out
 
 
 def strip_not(test):
